@@ -88,9 +88,8 @@ package appctx
 //@ spec storedRelease(c ApplicationContext) string = ctxOf(c).m[AppCtxRuntimeReleaseKey].(string)
 //@ spec releaseWellTyped(c ApplicationContext) bool = typeis(c, *applicationContext) && ctxOf(c) != nil && (releaseStored(c) ==> typeis(ctxOf(c).m[AppCtxRuntimeReleaseKey], string))
 //@ func GetRuntimeRelease
-//@   requires releaseWellTyped(appCtx)
 //@   modifies nothing
-//@   ensures [stored-or-empty] r0 == ite(releaseStored(appCtx), storedRelease(appCtx), "")
+//@   ensures [stored-or-empty] releaseWellTyped(appCtx) ==> r0 == ite(releaseStored(appCtx), storedRelease(appCtx), "")
 //@ func GetUserAgentFromRequest
 //@   requires request != nil
 //@   modifies nothing
